@@ -128,8 +128,9 @@ theorem write_cmdSeq (blocks : List Bytes) (idx start : Nat) (s : St σ)
   · next hne =>
     exact (((cardAcmd_cmdSeq B ACMD23 _).bind fun _ => (hnb _).bind fun _ =>
       (cardCommand_cmdSeq B CMD25 start).bind fun _ =>
-      (CmdSeq.of_nocmds (writeBlocks_emits B blocks)).bind fun _ => (hnb _).bind fun _ =>
-      (CmdSeq.of_nocmds (writeByte_emits B _)).bind fun _ => hnb _).cast (by simp)) s
+      CmdSeq.of_nocmds
+        (by emits [writeBlocks_emits B _, waitNotBusy_emits B _, writeByte_emits B _, readByte_emits B])).cast
+        (by simp)) s
 
 /-! ### Addresses -/
 
